@@ -57,7 +57,7 @@ def generate(rs: int, tier: str, index: int) -> dict:
     kindc = ch.weighted([(4, "int"), (3, "float"), (2, "complex"), (1, "bool")])
     names = model.gen_names(ch.sub("n"), 1, 3)
     sympy_case = ch.chance(0.12)
-    shape = () if sympy_case else ch.choice([(), (), (2,), (3,), (2, 2), (2, 3), (1, 2, 2), (12,)])
+    shape = () if sympy_case else ch.choice([(), (), (2,), (3,), (2, 2), (2, 3), (1, 2, 2), (12,), (2, 7), (9, 2), (3, 2, 8)])
     if sympy_case and kindc in ("complex", "bool"):
         kindc = "int"
     lit = gen_poly(ch.sub("p"), names=names, shape=shape, kind=kindc, same_degree=ch.choice([None, None, 3, 5, 9]), max_exp=ch.choice([3, 3, 12]))
@@ -90,7 +90,8 @@ def generate(rs: int, tier: str, index: int) -> dict:
     other = {}
     if ch.chance(0.3):  # str/repr must denote the polynomial whatever else is configured
         other = {"retain_names": ch.chance(0.3), "retain_coefficients": ch.chance(0.5)}
-    step = {"id": 0, "k": "sympy" if sympy_case else "text", "p": lit, "display": display, "other_options": other, "all_orders": ch.chance(0.3),
+    abort = ch.below(100000) if ch.chance(0.2) else None  # an earlier print of the same array, with other settings, was interrupted part-way
+    step = {"id": 0, "k": "sympy" if sympy_case else "text", "p": lit, "display": display, "other_options": other, "all_orders": ch.chance(0.3), "abort_first": abort,
             "reach": ch.weighted([(5, "direct"), (2, "nested"), (2, "set_inside")])}
     pols = POLICIES if tier == "thorough" else ["stable", ch.choice(POLICIES[1:])]
     return {"property": ID, "run_seed": rs, "tier": tier, "prelude": prelude.gen_prelude(core.Chooser(rs, "prelude")), "policies": pols, "steps": [step]}
@@ -288,6 +289,17 @@ class Runner:
         names, els = model.elements(p)
         dtype = p.dtype
         interesting = self._interesting(step["p"])
+        if step.get("abort_first") is not None:
+            import numpoly
+
+            tracer = seams.LineTracer(NUMPOLY_DIR, k=1 + step["abort_first"] % 120)
+            try:
+                with numpoly.global_options(display_inverse=not step["display"]["display_inverse"], display_exponent="^"):
+                    tracer.run(lambda: numpoly.array_repr(p, precision=3, suppress_small=True))
+            except core.SimInterrupt:
+                self.bump("fault:print_interrupted_then_printed_again.fired")
+            except Exception:  # noqa: BLE001
+                pass
         for display in self.displays(step):
             texts = {}
             for pol in self.plan["policies"]:
@@ -442,6 +454,8 @@ def simplify(plan: dict):
                     yield dict(plan, steps=[dict(step, all_orders=False, display=dict(step["display"], display_graded=g, display_reverse=r, display_inverse=i))])
     if step.get("other_options"):
         yield dict(plan, steps=[dict(step, other_options={})])
+    if step.get("abort_first") is not None:
+        yield dict(plan, steps=[dict(step, abort_first=None)])
     if step.get("reach") != "direct":
         yield dict(plan, steps=[dict(step, reach="direct")])
     if step["display"]["display_exponent"] != "**" or step["display"]["display_multiply"] != "*":
